@@ -161,19 +161,18 @@ theorem start_spec (S) (c : Client) (hi : TInv c) (hf : FromStarts S c) (id : TI
         cases err with
         | some er =>
           simp only
-          have hother : ∀ h', h' ≠ h → pend h' c1 = pend h' c := by
-            intro h' hne; rw [hp1]
-            have : (h == h') = false := by simpa using (Ne.symm hne)
-            simp [this]
-          refine ⟨hi1, hf1, nocalls, hc1closed, by simp, ?_, ?_, ?_, hother⟩
+          -- the entry just inserted is removed again (deleteIfCurrent): the table is as before
+          have hback : ∀ h', pend h' (c1.erase id) = pend h' c := by
+            intro h'
+            have e1 := pend_erase c1 hi1 id _ hl1 h'
+            have e2 := hp1 h'
+            simp only at e1
+            omega
+          refine ⟨tinv_erase c1 id hi1, fromStarts_erase _ c1 id hf1, nocalls, hc1closed, by simp, ?_, ?_, ?_,
+            fun h' _ => hback h'⟩
           · intro hh; split at hh <;> simp at hh
-          · intro hh
-            rcases hh with hh | hh | hh | hh
-            · split at hh <;> simp at hh
-            · split at hh <;> simp at hh
-            · split at hh <;> simp at hh
-            · exact absurd hh hex
-          · intro h'; show pend h' c1 ≤ _; rw [hp1]; exact Nat.le_refl _
+          · intro _ h'; exact hback h'
+          · intro h'; show pend h' (c1.erase id) ≤ _; rw [hback]; omega
         | none =>
           simp only
           generalize hc2 : ({ c1 with agent := a } : Client) = c2
